@@ -4,7 +4,7 @@ use fvh::mapcodec::{self, cn, from_sexp, to_sexp, M};
 use fvh::mapgen::{gen_mappings, MapCfg};
 use fvh::rng::Rng;
 use fvh::run::{main_for, Ans, Out, Tier};
-use fvh::sexp::Sexp;
+use fvh::sexp::{R, Sexp};
 use fvh::with_n;
 
 fn gen(r: &mut Rng, tier: Tier, out: &mut Out) {
@@ -29,16 +29,14 @@ fn gen(r: &mut Rng, tier: Tier, out: &mut Out) {
 		out.stats.hit(&format!("classes:{}", g.classes.len()));
 		let depth = g.classes.iter().map(|c| c.key().matches('$').count()).max().unwrap_or(0);
 		out.stats.hit(&format!("max-depth:{depth}"));
-		match i % 3 {
-			0 => out.op("extend", &[m.clone(), nss.clone()]),
-			1 => out.op("contract", &[m.clone(), nss.clone()]),
-			_ => {}
-		}
+		out.op("extend", &[m.clone(), nss.clone()]);
+		out.op("oracle-extend-spec", &[m.clone(), nss.clone()]);
+		if i % 3 == 1 { out.op("contract", &[m.clone(), nss.clone()]); }
 		out.op("oracle-contract-extend", &[m, nss]);
 	}
 	// families of outer classes whose nested classes share simple names (source side and/or target side), nested three and four
 	// deep, in every insertion order: the extended name of a class must come from ITS OWN outer chain, however the names collide
-	for i in 0..rounds / 4 {
+	for _ in 0..rounds / 4 {
 		let n = r.range(2, 4);
 		let t = r.range(1, n - 1);
 		let outers = r.range(2, 3);
@@ -65,7 +63,8 @@ fn gen(r: &mut Rng, tier: Tier, out: &mut Out) {
 		let g = fvh::mapgen::GMappings { ns: ["official", "intermediary", "named", "extra"][..n].iter().map(|x| (*x).to_owned()).collect(), doc: None, classes };
 		let nss = Sexp::str(&g.ns[t]);
 		out.stats.hit(if same_dst { "family:same-target-simple-name" } else { "family:distinct-target-simple-names" });
-		if i % 2 == 0 { out.op("extend", &[g.to_sexp(), nss.clone()]); }
+		out.op("extend", &[g.to_sexp(), nss.clone()]);
+		out.op("oracle-extend-spec", &[g.to_sexp(), nss.clone()]);
 		out.op("oracle-contract-extend", &[g.to_sexp(), nss]);
 	}
 	// split / join on strings over the relevant alphabet: exhaustive up to a length, then random
@@ -89,15 +88,27 @@ fn gen(r: &mut Rng, tier: Tier, out: &mut Out) {
 	}
 }
 
+const DOLLAR: u32 = '$' as u32;
+const SLASH: u32 = '/' as u32;
+
+/// The harness's own reading of "nested name `Outer$Inner`" (never the implementation's `split_inner_class_parent_and_name`):
+/// cut at the last `$`, both sides non-empty, the outer side does not end a package (`/`), the inner side holds no `/`.
+fn own_split(s: &[u32]) -> Option<(&[u32], &[u32])> {
+	let k = s.iter().rposition(|c| *c == DOLLAR)?;
+	let (p, i) = (&s[..k], &s[k + 1..]);
+	if p.is_empty() || i.is_empty() || p[p.len() - 1] == SLASH || i.contains(&SLASH) { None } else { Some((p, i)) }
+}
+
+fn cps_of<T: AsRef<java_string::JavaStr>>(t: &T) -> Vec<u32> { Sexp::jstr(t.as_ref()).as_cps().unwrap_or_default() }
+
 fn simple<const N: usize>(m: &M<N>, ns: usize) -> bool {
 	m.classes.values().all(|c| {
 		let names: &[Option<ObjClassName>; N] = (&c.info.names).into();
 		match (&names[ns], &names[0]) {
 			(Some(b), Some(src)) => {
-				let bs = b.as_inner();
-				!bs.is_empty() && !bs.ends_with('/') &&
-					if src.split_inner_class_parent_and_name().is_some() { !bs.contains('$') && !bs.contains('/') }
-					else { b.split_inner_class_parent_and_name().is_none() }
+				let (b, src) = (cps_of(b), cps_of(src));
+				!b.is_empty() && b[b.len() - 1] != SLASH &&
+					if own_split(&src).is_some() { !b.contains(&DOLLAR) && !b.contains(&SLASH) } else { own_split(&b).is_none() }
 			}
 			(Some(_), None) => false,
 			_ => true,
@@ -105,10 +116,49 @@ fn simple<const N: usize>(m: &M<N>, ns: usize) -> bool {
 	})
 }
 
+/// What the property text demands of `extend_inner_class_names`, computed from the REQUEST alone (the encoded mapping set, harness codec;
+/// none of the implementation's split / lookup / join functions): `None` = outside the statement (a class not filed under its source
+/// name; the first namespace of a set without classes), `Some(None)` = an error is demanded (unknown / first namespace, or some outer
+/// class of a named nested class is not in the set or has no name in the namespace), `Some(Some(x))` = the demanded result.
+fn extend_spec(m: &Sexp, ns: &str) -> R<Option<Option<Sexp>>> {
+	let [nss, doc, classes] = m.as_list()? else { return Err("mappings".into()) };
+	let nsn: Vec<String> = nss.as_list()?.iter().map(|x| x.as_string()).collect::<R<_>>()?;
+	let mut rows: Vec<(Vec<u32>, Vec<Option<Vec<u32>>>)> = Vec::new();
+	for c in classes.as_list()? {
+		let [k, names, ..] = c.as_list()? else { return Err("class".into()) };
+		let names = names.as_list()?.iter().map(|o| Ok(match o.as_opt()? { None => None, Some(x) => Some(x.as_cps()?) })).collect::<R<Vec<_>>>()?;
+		if names.len() != nsn.len() { return Err("names row".into()); }
+		rows.push((k.as_cps()?, names));
+	}
+	if rows.iter().any(|(k, n)| n.first() != Some(&Some(k.clone()))) { return Ok(None); }
+	let Some(t) = nsn.iter().position(|x| x == ns) else { return Ok(Some(None)) };
+	if t == 0 { return Ok(if rows.is_empty() { None } else { Some(None) }); }
+	let target = |k: &[u32]| -> Option<&Vec<u32>> { rows.iter().find(|(kk, _)| kk[..] == *k).and_then(|(_, n)| n[t].as_ref()) };
+	let mut out = Vec::new();
+	for (c, (k, names)) in classes.as_list()?.iter().zip(&rows) {
+		let Some(own) = &names[t] else { out.push(c.clone()); continue };
+		// the chain of outer classes by SOURCE name, innermost first; the extended name is their names in the namespace, outermost first
+		let mut parts: Vec<&[u32]> = vec![own];
+		let mut cur: &[u32] = k;
+		while let Some((outer, _)) = own_split(cur) {
+			let Some(o) = target(outer) else { return Ok(Some(None)) };
+			parts.push(o);
+			cur = outer;
+		}
+		parts.reverse();
+		let mut new_names = names.clone();
+		new_names[t] = Some(parts.join(&DOLLAR));
+		let mut items = c.as_list()?.to_vec();
+		items[1] = Sexp::list(new_names.iter().map(|o| Sexp::opt(o.as_ref(), |x| Sexp::cps(x))).collect());
+		out.push(Sexp::list(items));
+	}
+	Ok(Some(Some(Sexp::list(vec![nss.clone(), doc.clone(), Sexp::list(out)]))))
+}
+
 fn exec(op: &str, args: &[Sexp]) -> Ans {
 	macro_rules! tr { ($e:expr) => { match $e { Ok(x) => x, Err(e) => return Ans::BadOp(e) } } }
 	match (op, args) {
-		("extend" | "contract" | "oracle-contract-extend", [m, ns]) => {
+		("extend" | "contract" | "oracle-contract-extend" | "oracle-extend-spec", [m, ns]) => {
 			let n = tr!(mapcodec::ns_count(m));
 			let ns = tr!(ns.as_string());
 			with_n!(n, N, {
@@ -116,12 +166,24 @@ fn exec(op: &str, args: &[Sexp]) -> Ans {
 				match op {
 					"extend" => match m.extend_inner_class_names(&ns) { Ok(r) => Ans::Ok(to_sexp(&r)), Err(_) => Ans::err() },
 					"contract" => match m.contract_inner_class_names(&ns) { Ok(r) => Ans::Ok(to_sexp(&r)), Err(_) => Ans::err() },
+					"oracle-extend-spec" => {
+						let got = m.extend_inner_class_names(&ns).ok().map(|r| to_sexp(&r));
+						match (tr!(extend_spec(&to_sexp(&m), &ns)), got) {
+							(None, _) => Ans::out_of_domain(),
+							(Some(None), None) => Ans::pass(),
+							(Some(None), Some(_)) => Ans::fail("should_err"),
+							(Some(Some(_)), None) => Ans::fail("err"),
+							(Some(Some(want)), Some(got)) => if want == got { Ans::pass() } else { Ans::fail("differs") },
+						}
+					}
 					_ => {
-						let Ok(nsi) = m.get_namespace(&ns) else { return Ans::out_of_domain() };
+						// domain from the request: known namespace, classes filed under their source names, simple names, and the
+						// specification (not the implementation) says that extension succeeds
 						let names: &[String; N] = (&m.info.namespaces).into();
-						let nsi = names.iter().position(|x| *x == ns).unwrap_or(0);
+						let Some(nsi) = names.iter().position(|x| *x == ns) else { return Ans::out_of_domain() };
+						let Some(Some(_)) = tr!(extend_spec(&to_sexp(&m), &ns)) else { return Ans::out_of_domain() };
 						if !simple(&m, nsi) { return Ans::out_of_domain(); }
-						let Ok(e) = m.extend_inner_class_names(&ns) else { return Ans::out_of_domain() };
+						let Ok(e) = m.extend_inner_class_names(&ns) else { return Ans::fail("extend_err") };
 						match e.contract_inner_class_names(&ns) {
 							Ok(c) => if to_sexp(&c) == to_sexp(&m) { Ans::pass() } else { Ans::fail("differs") },
 							Err(_) => Ans::fail("contract_err"),
